@@ -423,27 +423,29 @@ def compare(expected, opts, obs):
 
 def narrow_completion_label(op, df_in, exc):
     name, p = op["operation"], op["parameters"]
-    if name == "factor_column" and "factor_values" not in p:
-        return "C17.complete.D12_factor_column_without_factor_values"
-    if name == "factor_column" and "factor_names" not in p:
-        return "C17.complete.D12_factor_column_values_without_names"
-    if name == "merge_consecutive" and "match_columns" not in p:
-        return "C17.complete.D13_merge_consecutive_without_match_columns"
-    if name == "split_rows" and any("copy_columns" not in s for s in p["new_events"].values()):
-        return "C17.complete.split_rows_without_copy_columns"
-    if name == "remap_columns" and len(p["map_list"]) == 2 and "does not match length of index" in str(exc):
+    msg = str(exc)
+    if name == "remap_columns" and len(p["map_list"]) == 2 and "does not match length of index" in msg:
         return "C17.complete.remap_two_entry_map_hash_series"
     if name == "remap_columns" and p.get("integer_sources") and isinstance(exc, TypeError) \
-            and "Invalid value for dtype 'str'" in str(exc):
+            and "Invalid value for dtype 'str'" in msg:
         return "C17.complete.remap_integer_sources_text_column"
     if name == "merge_consecutive" and p.get("set_durations") and isinstance(exc, IndexError):
         return "C17.complete.merge_set_durations_unmerged_first_run"
-    if name == "merge_consecutive" and p.get("set_durations") and isinstance(exc, TypeError) \
+    if name == "merge_consecutive" and p.get("set_durations") and isinstance(exc, TypeError) and "NoneType" not in msg \
             and df_in is not None and "duration" in df_in.columns:
         if (df_in["duration"].astype(str) == "n/a").any():
             return "C17.complete.merge_set_durations_na_duration"
         if str(df_in["duration"].dtype).startswith("int"):
             return "C17.complete.merge_set_durations_int_duration"
+    if name == "factor_column" and "factor_values" not in p and isinstance(exc, (TypeError, IndexError)):
+        return "C17.complete.D12_factor_column_without_factor_values"
+    if name == "factor_column" and "factor_names" not in p and isinstance(exc, (TypeError, IndexError)):
+        return "C17.complete.D12_factor_column_values_without_names"
+    if name == "merge_consecutive" and "match_columns" not in p and isinstance(exc, TypeError) and "NoneType" in msg:
+        return "C17.complete.D13_merge_consecutive_without_match_columns"
+    if name == "split_rows" and any("copy_columns" not in s for s in p["new_events"].values()) \
+            and isinstance(exc, KeyError) and "copy_columns" in msg:
+        return "C17.complete.split_rows_without_copy_columns"
     return None
 
 
